@@ -123,6 +123,21 @@ def run(ctx):
     for h in (hs[:1] + hs[n1:n1 + 2]):
         ctx.sample({"scenario": to_lines(h)})
     ctx.exec_validate(exe, hs, to_lines, "IpcAdmitTrace.tla", "IpcAdmitTrace.cfg", nshards=4, timeout=1500)
+    # event census of the recorded runs (counting only; guards against a vacuous run)
+    import glob
+    cnt = {}
+    for tr in glob.glob(os.path.join(ctx.work, "gen-[0-9].ndjson")):
+        for line in open(tr):
+            m = re.match(r'\{"e":"(\w+)"', line)
+            if m:
+                key = m.group(1)
+                if key == "Result":
+                    key = "Result_connected" if line.rstrip().endswith('"r":[1,0]}') else "Result_failed"
+                cnt[key] = cnt.get(key, 0) + 1
+    ctx.cov["recorded_events"] = cnt
+    for need_ev in ("Accept", "Handled", "Obs", "Msg", "Result_connected", "Result_failed"):
+        if not cnt.get(need_ev) and not ctx.violations:
+            raise core.Infra("vacuous run: no %s event was recorded" % need_ev)
     ctx.cov["scenarios_single_client_enumerated"] = n1
     ctx.cov["scenarios_concurrent_mixes"] = len(hs) - n1
     ctx.cov["exhaustive"] = True
